@@ -1059,10 +1059,25 @@ where
         ) -> bool,
     ) -> Result<bool> {
         let parser = self.source.parser();
+        // number of sequences currently open:
+        // only top-level tokens are tested,
+        // so that an element nested in a sequence item
+        // (such as the pixel data of an icon image)
+        // is not taken for the one of the main data set
+        let mut depth: u32 = 0;
         while let Some(token) = parser.advance() {
             let token = token.context(ReadTokenSnafu)?;
-            if pred(&token) {
+            if depth == 0 && pred(&token) {
                 return Ok(true);
+            }
+            match &token {
+                LazyDataToken::SequenceStart { .. } | LazyDataToken::PixelSequenceStart => {
+                    depth += 1;
+                }
+                LazyDataToken::SequenceEnd => {
+                    depth = depth.saturating_sub(1);
+                }
+                _ => {}
             }
             // skip through values if necessary
             token.skip().context(ReadItemSnafu)?;
